@@ -103,19 +103,6 @@ func VerifC05_batch_isolation() {
 	}
 }
 
-// adapters over the real issuers (the repository ships them only in its tests)
-type c05T1 struct{ i *type1.BasicPrivateIssuer }
-
-func (a c05T1) Evaluate(req tokens.TokenRequest) ([]byte, error) {
-	r, ok := req.(*type1.BasicPrivateTokenRequest)
-	if !ok {
-		return nil, errors.New("wrong request type")
-	}
-	return a.i.Evaluate(r)
-}
-func (a c05T1) TokenKeyID() []byte { return a.i.TokenKeyID() }
-func (a c05T1) Type() uint16       { return a.i.Type() }
-
 // end to end over the wire with real type-1 issuers: every present entry finalizes under its own
 // request state; a request for an unknown key id is absent and does not disturb its neighbours.
 // Two configured keys may share a truncated key id (the right key listed first).
